@@ -92,6 +92,7 @@ func (v *Value) UnmarshalNBT(tagType byte, r nbt.DecoderReader) error {
 		}
 
 		v.list = v.list[:0]
+		v.elem = t
 
 		for i := int32(0); i < length; i++ {
 			field := new(Value)
